@@ -3,6 +3,8 @@ CONSTANTS
   MaxNodes = 12
   BaseSet <- AllBases
   RunCfgSeq <- RunsThorough
+  Prods <- AllProds
+  KISet <- KIClassic
   EmitMin = 3
   EmitFrom = 3
   EmitMod = 8
